@@ -31,7 +31,7 @@ SHARDS = {"quick": 4, "thorough": 16}
 RULE = (
     "Hypothesis draws 2..3 workloads (2..5 blocks each; block = context block / decorated call with typeguard or beartype / ill-typed "
     "decorated call / top-level items; items = check(name,size), failing check after a tentative binding, PyTree['?k n','T'] over 2..6 "
-    "leaves (matching or with one broken leaf), structure-less PyTree, bindings read) and a schedule (0..10 segments of 1..80 traced "
+    "leaves (matching or with one broken leaf), structure-less PyTree, PyTree nested in PyTree, bindings read); in a third of the cases the workers are started from inside a context of the spawning thread, in copies of its contextvars context and a schedule (0..10 segments of 1..80 traced "
     "lines, then round robin with quantum 1..8). Non-trivial = >=2 context switches landed while the pre-empted thread was inside a "
     "jaxtyping check / memo function (name of the interrupted frame); distinct by (workloads, schedule)."
 )
@@ -47,6 +47,8 @@ ANN2 = Shaped[np.ndarray, "a b"]
 ANN_FAIL = Shaped[np.ndarray, "q1 q2 a a"]  # binds q1, q2 tentatively, then needs a == a
 PT_Q = PyTree[Shaped[np.ndarray, "?k n"], "T"]
 PT_PLAIN = PyTree[Shaped[np.ndarray, "m n"]]
+PT_NESTED = PyTree[PyTree[Shaped[np.ndarray, "?k n"]], "T"]  # the inner check runs as is_leaf of the outer flatten
+PT_NESTED_INT = PyTree[PyTree[int]]
 _tl = threading.local()
 
 
@@ -104,6 +106,10 @@ def run_items(items, out):
             v = obs.verdict([tree[0], {"k": tree[1:]}], PT_Q)
         elif k == "pytree-plain":
             v = obs.verdict([np.zeros((it[1], it[2])), (np.zeros((it[1], it[2])),)], PT_PLAIN)
+        elif k == "pytree-nested":
+            v = obs.verdict([np.zeros((it[1], it[2])), (np.zeros((it[1], it[2])), [np.zeros((it[1], it[2]))])], PT_NESTED)
+        elif k == "pytree-nested-int":
+            v = obs.verdict([1, (2, [3, it[1]])], PT_NESTED_INT)
         elif k == "q-outside":
             v = obs.verdict(np.zeros((3, 2)), Shaped[np.ndarray, "?k n"])
         else:
@@ -160,7 +166,19 @@ def check_case(ctx, case):
     solo2 = [sched.run_solo(lambda w=w: run_workload(w)) for w in workloads]
     if solo != solo2:
         raise HarnessError(f"solo runs are not reproducible: {solo} vs {solo2}")
-    results, s = sched.run_interleaved([(lambda w=w: run_workload(w)) for w in workloads], [tuple(x) for x in case["segments"]], case["quantum"])
+    fns = [(lambda w=w: run_workload(w)) for w in workloads]
+    if case.get("parent_context"):
+        # the spawning (main) thread is itself inside a context with bindings; the workers run in copies of its
+        # contextvars context; they must behave as alone, and the parent's bindings must be untouched afterwards
+        with jaxtyped("context"):
+            assert isinstance(np.zeros((5,)), ANN["a"]) and isinstance(np.zeros((5, 6)), ANN2)
+            before = bindings_text()
+            results, s = sched.run_interleaved(fns, [tuple(x) for x in case["segments"]], case["quantum"], copy_context=True)
+            after = bindings_text()
+        if before != after:
+            raise Violation("parent-bindings-changed", case, f"the spawning thread's bindings were {before!r}, after the workers ran: {after!r}")
+    else:
+        results, s = sched.run_interleaved(fns, [tuple(x) for x in case["segments"]], case["quantum"])
     if s.errors:
         raise HarnessError(f"scheduler: {s.errors}")
     inside = sum(1 for _, fn in s.switches if fn in sched.INSIDE_CHECK)
@@ -189,6 +207,8 @@ item_st = st.one_of(
     st.tuples(st.just("check2"), size, size),
     st.tuples(st.just("pytree"), st.lists(size, min_size=2, max_size=6), size, st.none()),
     st.tuples(st.just("pytree-plain"), size, size),
+    st.tuples(st.just("pytree-nested"), size, size),
+    st.tuples(st.just("pytree-nested-int"), size),
     st.tuples(st.just("q-outside")),
 )
 items_st = st.lists(item_st, min_size=1, max_size=4)
@@ -202,6 +222,7 @@ case_st = st.fixed_dictionaries({
     "workloads": st.lists(st.lists(block_st, min_size=2, max_size=5), min_size=2, max_size=3),
     "segments": st.lists(st.tuples(st.integers(0, 2), st.sampled_from([1, 2, 3, 5, 8, 13, 21, 40, 80])), max_size=10),
     "quantum": st.sampled_from([1, 2, 3, 5, 8, 1, 2]),
+    "parent_context": st.sampled_from([False, False, True]),
 })
 
 
@@ -212,7 +233,8 @@ def to_lists(x):
 def run(ctx):
     @given(case_st)
     def cases(case):
-        check_case(ctx, {"workloads": to_lists(case["workloads"]), "segments": to_lists(case["segments"]), "quantum": case["quantum"]})
+        check_case(ctx, {"workloads": to_lists(case["workloads"]), "segments": to_lists(case["segments"]), "quantum": case["quantum"],
+                         "parent_context": case["parent_context"]})
 
     ctx.hyp(cases, max_examples=ctx.n(60, 600))
 
